@@ -1,5 +1,5 @@
 SPECIFICATION Spec
-CONSTANTS Regs = {"r1", "r2", "r3"}  NComp = 1  Patterns <- P1  Nums <- NumsSim  Caps <- AffineCaps  MaxAbs = 4000  Depth = 12
+CONSTANTS Regs = {"r1", "r2", "r3"}  NComp = 1  Patterns <- P1  Nums <- NumsSim  Caps <- AffineCaps  Factor = 0  MaxAbs = 4000  Depth = 12
 INVARIANT TypeOK
 INVARIANT Emit
 CONSTRAINT Bound
